@@ -172,3 +172,23 @@ Definition py_slice_set (l : list Q) (lo hi : Z) (v : list Q) : res (list Q) :=
   let n := zlen l in let a := clip_index n lo in let b := clip_index n hi in
   if Nat.eqb (Z.to_nat (b - a)) (List.length v)
   then Ok (firstn (Z.to_nat a) l ++ v ++ skipn (Z.to_nat b) l) else Raise ValueError.
+
+(* a[lo:stop:-1]: indices lo, lo-1, ..., down to (not including) stop; stop = None runs down to index 0 *)
+Definition py_slice_rev (l : list Q) (lo : Z) (stop : option Z) : list Q :=
+  let n := zlen l in
+  let a := if lo <? 0 then Z.max (-1) (n + lo) else Z.min (n - 1) lo in
+  let b := match stop with None => -1 | Some s => if s <? 0 then Z.max (-1) (n + s) else Z.min (n - 1) s end in
+  map (fun k => nth (Z.to_nat (a - Z.of_nat k)) l 0%Q) (seq 0 (Z.to_nat (a - b))).
+(* a + b, a - b on numpy arrays: equal lengths, or one of them of length 1 (broadcast); anything else raises ValueError *)
+Fixpoint arr_zip (f : Q -> Q -> Q) (a b : list Q) : list Q :=
+  match a, b with x :: a', y :: b' => f x y :: arr_zip f a' b' | _, _ => [] end.
+Definition py_arr_zip (f : Q -> Q -> Q) (a b : list Q) : res (list Q) :=
+  if Nat.eqb (List.length a) (List.length b) then Ok (arr_zip f a b)
+  else match a, b with
+       | [x], _ => Ok (map (fun y => f x y) b)
+       | _, [y] => Ok (map (fun x => f x y) a)
+       | _, _ => Raise ValueError
+       end.
+Definition py_arr_add2 := py_arr_zip Qplus.
+Definition py_arr_sub2 := py_arr_zip Qminus.
+Definition arr_sq (a : list Q) : list Q := map (fun x => x * x)%Q a.
